@@ -117,9 +117,7 @@ def handle (j : Json) : Json :=
   let out := validateRequestBody registry rb ct b exro
   let spec := acceptB registry rb ct b exro
   let excl :=
-    (if exclFormUnparsable registry rb ct b then ["FormFieldUnparsable"] else []) ++
-    (if exclFormNull registry rb ct b then ["FormNullForMissing"] else []) ++
-    (if exclReadOnlyNull registry rb ct b exro then ["ReadOnlyNull"] else [])
+    (if exclFormUnparsable registry rb ct b then ["FormFieldUnparsable"] else [])
   let reached := !(b.text = []) && !rb.content.isEmpty
   let sel := contentGet rb.content ct
   let decoding := reached && (match sel with | some mt => mt.schema.isSome | none => false)
